@@ -51,6 +51,47 @@ def run_key(repo, key, seed, iters, timeout=600):
     return d
 
 
+_native = {}
+
+
+def run_native(repo, spec, key, seed, iters, input_hex=None, timeout=900):
+    """spec = {"crate": dir under /verif, "bin": binary name}: a native crate with path dependencies on /repo that is
+    too heavy to build in setup (DataFusion) -- built on first use, i.e. only when an obligation has failed."""
+    crate, binname = spec["crate"], spec["bin"]
+    target = os.path.join(ROOT, "build", crate + "-target")
+    if crate not in _native:
+        rdir = os.path.join(ROOT, crate)
+        try:
+            shutil.copyfile(os.path.join(repo, "Cargo.lock"), os.path.join(rdir, "Cargo.lock"))
+        except OSError:
+            pass
+        env = dict(os.environ, CARGO_NET_OFFLINE="true", CARGO_TARGET_DIR=target)
+        env.pop("RUSTFLAGS", None)
+        p = subprocess.run(["cargo", "build", "--offline", "--quiet"], cwd=rdir, env=env, stdout=subprocess.PIPE,
+                           stderr=subprocess.STDOUT, text=True)
+        binp = os.path.join(target, "debug", binname)
+        _native[crate] = binp if p.returncode == 0 and os.path.exists(binp) else (False, p.stdout[-2000:])
+    binp = _native[crate]
+    if not isinstance(binp, str):
+        return {"found": False, "error": "native replay crate %s did not build against the working tree" % crate,
+                "build_log": binp[1]}
+    cmd = [binp, key, "--seed", str(seed), "--iters", str(iters)] + (["--input", input_hex] if input_hex else [])
+    t0 = time.time()
+    try:
+        p = subprocess.run(cmd, stdout=subprocess.PIPE, stderr=subprocess.PIPE, text=True, timeout=timeout)
+    except subprocess.TimeoutExpired:
+        return {"found": False, "error": "timeout"}
+    line = p.stdout.strip().split("\n")[-1] if p.stdout.strip() else ""
+    try:
+        d = json.loads(line)
+    except Exception:
+        d = {"found": False, "error": "unparsable output", "stdout": p.stdout[-500:], "stderr": p.stderr[-500:]}
+    d["wall_s"] = round(time.time() - t0, 3)
+    d["cmd"] = " ".join(cmd)
+    d["native"] = spec
+    return d
+
+
 def find_witness(r, o, repo, tier, seed):
     """r: unit result, o: failing obligation.  Returns a witness dict or None."""
     if o.get("witness") is not None:
@@ -82,7 +123,10 @@ def replay_file(path, repo):
         print("no concrete input recorded (no-failing-input-found); verifier output follows")
         print(rep.get("verifier_output", ""))
         return 2
-    d = run_key(repo, w["key"], 0, 100000)
+    if w.get("native"):
+        d = run_native(repo, w["native"], w["key"], 0, 100000, w.get("any_values_hex"))
+    else:
+        d = run_key(repo, w["key"], 0, 100000)
     print(json.dumps(d))
     if d.get("found"):
         print("REPRODUCED on the current /repo working tree")
